@@ -34,7 +34,12 @@ def ev(e, v):
     if k == 'TT':
         return v[e[1]] >= v[e[3]]
     if k == 'R':
-        return all(v[e[1]][n] >= a for n, a in e[3].items())
+        import operator as _op
+        f = {'>=': _op.ge, '>': _op.gt, '<=': _op.le, '<': _op.lt}.get(e[2])
+        if f is not None:
+            return all(f(v[e[1]][n], a) for n, a in e[3].items())      # elementwise, all names
+        eq = all(v[e[1]][n] == a for n, a in e[3].items())
+        return eq if e[2] == '==' else not eq
     if k == 'DONE':
         return bool(v['done:' + e[1]])
     if k == 'GE':
@@ -80,6 +85,9 @@ def trees(depth2):
 
 
 # ---- (i) algebra, evaluated inside a real simulation ----------------------------------------------
+RES_ATOMS = [['R', 'r', op, {'a': 1}] for op in ('>', '>=', '<', '<=', '==', '!=')]
+
+
 def algebra_case(case):
     """one valuation of the atoms; all trees are compared with the evaluator at 3 clock values"""
     A, B, X, Y, done = case['val'][:5]
@@ -221,6 +229,10 @@ def cases(tier):
     for v in vals:
         for i in range(0, len(all_trees), chunk):
             out.append({'kind': 'algebra', 'val': list(v), 'trees': all_trees[i:i + chunk]})
+    # every comparison operator on resource levels, at levels below / equal to / above the bound
+    rtrees = RES_ATOMS + [['NOT', a] for a in RES_ATOMS] + [['AND', a, ['F', 'A']] for a in RES_ATOMS] + [['OR', a, b] for a in RES_ATOMS[:3] for b in RES_ATOMS[3:]]
+    for level in (0, 1, 2):
+        out.append({'kind': 'algebra', 'val': [True, False, 0, 0, False, level], 'trees': rtrees})
     # (ii)/(iii) dynamics
     hist = histories(2 if tier == 'quick' else 3)
     dyn_trees = all_trees if tier == 'thorough' else trees(False) + [t for i, t in enumerate(trees(True)[len(trees(False)):]) if i % 4 == 0]
@@ -252,6 +264,16 @@ def cases(tier):
             for h in itertools.permutations(acts, 2 if tier == 'quick' else 3):
                 hist3 = [(i, x) for i, x in enumerate(h)]
                 out.append({'kind': 'dyn', 'prog': dyn_program(shape, hist3, None, (0, 1), 1)})
+    # time atoms with dates that have no exact binary representation, awaited from such times
+    for pre in (0.2, 0.3):
+        for tree in (['GE', 0.9], ['EQ', 0.9], ['AND', ['F', 'A'], ['OR', ['GE', 0.9], ['EQ', 0.9]]], ['OR', ['EQ', 1.1], ['F', 'B']],
+                     ['AND', ['GE', 0.7], ['LT', 1.1]]):
+            for h in ([], [(0, 'A+')], [(1, 'A+')], [(1, 'B+')]):
+                prog = dyn_program(tree, h, None, (0, 0), 1)
+                for op in prog['roots'][0][1][0][2]:
+                    if op[0] == 'DO' and op[1] == 'w1':
+                        op[2].insert(0, ['D', pre])
+                out.append({'kind': 'dyn', 'prog': prog})
     # a setter that is cancelled at each of its activation boundaries: the change it made must still wake the waiters
     simple = [t for t in trees(False) if len(atoms_of(t) & {'X', 'Y', 'r', 'A'}) >= 1][:60]
     for tree in simple:
